@@ -48,6 +48,26 @@ type Doc struct {
 	Ways  []DWay  `json:"ways"`
 	Rels  []DRel  `json:"rels"`
 	Order []Elem  `json:"order"` // element order in the file
+	// Extras: top-level elements other than node/way/relation that OSM XML files carry (Elem kind "x"): bounds (written
+	// first by most exporters), note, user, changeset
+	Extras []string `json:"extras,omitempty"`
+}
+
+var extraXML = map[string]string{
+	"bounds":    " <bounds minlat=\"0\" minlon=\"0\" maxlat=\"6\" maxlon=\"6\"/>\n",
+	"note":      " <note lon=\"1.5\" lat=\"2.5\">\n  <id>5</id>\n  <status>open</status>\n </note>\n",
+	"user":      " <user id=\"7\" display_name=\"someone\" account_created=\"2010-01-01T00:00:00Z\"/>\n",
+	"changeset": " <changeset id=\"3\" created_at=\"2020-01-01T00:00:00Z\" closed_at=\"2020-01-01T01:00:00Z\" open=\"false\" user=\"someone\" uid=\"7\"/>\n",
+}
+
+// HasExtra reports whether the document carries an element of the given kind in its element order.
+func (d Doc) HasExtra(kind string) bool {
+	for _, e := range d.Order {
+		if e.Kind == "x" && e.Idx < len(d.Extras) && d.Extras[e.Idx] == kind {
+			return true
+		}
+	}
+	return false
 }
 
 type Keep struct {
@@ -103,6 +123,10 @@ func (d Doc) XML() string {
 			}
 			writeTags(&sb, r.Tags)
 			sb.WriteString(" </relation>\n")
+		case "x":
+			if e.Idx < len(d.Extras) {
+				sb.WriteString(extraXML[d.Extras[e.Idx]])
+			}
 		}
 	}
 	sb.WriteString("</osm>\n")
